@@ -14,6 +14,16 @@ through getters and ships *scheduler call records* to TLC:
                     RELEASED / VIRTUAL tasks on a partially occupied heterogeneous cluster;
                     every real policy (incl. Z3, which cannot run inside simulate()) is then
                     invoked on that live state with its option combinations.
+ (b') staged states a scripted stage policy starts chosen tasks late / plans them for later on named workers and
+                    the simulation is stopped when the late tasks are released: RUNNING tasks past their deadline with
+                    much / little remaining time, plans in the future on the only fitting worker, releases exactly at /
+                    after another task's deadline, tight and loose deadlines (a directed grid plus biased random members);
+                    every planner is invoked there with deadline enforcement on AND off, the greedy ones too.
+ (o) side options   preemptive EDF / LSF (conv.preemptive), BranchPredictionScheduler (all policies; 'bp_logfix' behind its
+                    crash), ILP / TetriSched-CPLEX batching=True, Clockwork with run_load (LOAD / EVICT decisions, held
+                    profiles count against the capacity) - in simulations of their own and in the direct calls.  The
+                    families with recorded findings (bp_logfix, batching, models whose loading strategy shares a
+                    resource type with execution) run on a fixed corpus (no VERIF_SEED) so that their keys are stable.
  (c) judgement      the records are written as JSON batches; one TLC JVM per batch evaluates
                     Decision!Judge on every record and prints the failing (record, clause,
                     offenders, circumstance) tuples, which become res.violate(...).
@@ -65,7 +75,27 @@ ASSUMPTIONS = [
     "(outside_frontier) - the simulations of part (a) run the same policies on states they produced themselves",
     "solver instances are bounded by the restricted Gurobi / CPLEX community licences; calls that exceed them, and "
     "calls that do not return within 40 s wall clock, are skipped and counted (licence_and_timeout_skips), never judged",
-    "preemptive scheduling, Clockwork's run_load and ILP/CPLEX batching=True are outside the generated option space",
+    "preemptive EDF / LSF / BranchPrediction (conv.preemptive): the tasks placed on the workers are offered too and a "
+    "RUNNING task may be answered (placed in its pool now = keeps running, not placed = preempted); the policy plans on "
+    "emptied workers with pool-chosen workers, so a kept task is NOT pinned to the worker it occupies (only 'some "
+    "assignment of the answered tasks to the pool's workers exists' is demanded); the simulator cannot resume PREEMPTED "
+    "tasks (NotImplementedError), preemptive simulations end there and are not a verdict",
+    "ILP / TetriSched-CPLEX batching=True: the members of one BatchStrategy hold one allocation (bid), also together "
+    "with occupants / kept plans of the same batch; conv.batch_size (members <= batch size) is a note",
+    "Clockwork with run_load: the resources of the loading strategies of the profiles a worker holds (available or "
+    "pending; Worker._available_profiles / _pending_profiles are read for the strategy) count against its capacity "
+    "until an EVICT decision of the same call names them, a LOAD decision holds its strategy's resources from its time "
+    "on; 'an EVICT names a held profile' (conv.evict_held) is a note; BaseScheduler.start() is not judged",
+    "BranchPredictionScheduler raises on every call that is offered a task (its debug line reads Task.resource_requirements, "
+    "which does not exist): policy 'bp' records that; policy 'bp_logfix' supplies the attribute from outside for the "
+    "duration of the call (it only feeds the log line) so that the rest of the body is judged too",
+    "the worlds simulated under ILP / TetriSched / Z3-style planners use --runtime_variance=0: all bundled planners model a "
+    "running task as busy for its strategy's nominal runtime from the invocation on, which covers now + remaining time only "
+    "when tasks never run longer than their strategy says (with variance they can); the greedy policies' worlds use variance",
+    "staged states (part b'): a scripted stage policy starts chosen tasks late / plans them for later on named workers in "
+    "a real simulation that is stopped at the release of the late tasks - RUNNING tasks past their deadline, with little / "
+    "much remaining time, future plans on the only fitting worker, releases at / after another task's deadline, tight and "
+    "loose deadlines; the classes are counted by Decision!Exercised (state_classes in the evidence)",
 ]
 
 # ---------------------------------------------------------------------------
@@ -73,6 +103,13 @@ ASSUMPTIONS = [
 
 
 def conv_of(kind, opts):
+    c = _conv_of(kind, opts)
+    c["preemptive"] = bool(opts.get("preemptive", False))
+    c["enforce"] = bool(opts.get("enforce", kind == "clockwork"))
+    return c
+
+
+def _conv_of(kind, opts):
     if kind == "ilp":
         return {"gap": 1, "instants": "starts", "plans": "kept", "startLB": 1, "grid": 1}
     if kind in ("ts_gurobi", "ts_cplex"):
@@ -81,8 +118,30 @@ def conv_of(kind, opts):
         # Z3 separates independent tasks strictly (s1 + rem1 < s2) but lets a child start exactly when its parent
         # ends (>=): only the half-open reading is common to both, and it is the simulator's own
         return {"gap": 0, "instants": "starts", "plans": "kept", "startLB": 0, "grid": 1}
-    # EDF / FIFO / LSF / Clockwork plan the invocation instant on the live cluster only
+    # EDF / FIFO / LSF / BranchPrediction / Clockwork plan the invocation instant on the live cluster only
     return {"gap": 0, "instants": "now", "plans": "ignored", "startLB": 0, "grid": 1}
+
+
+def variant_of(kind, opts):
+    """the option families that get their own finding keys"""
+    v = ""
+    if opts.get("preemptive"):
+        v += "+preemptive"
+    if opts.get("batching"):
+        v += "+batching"
+    if opts.get("run_load"):
+        v += "+run_load"
+    return v
+
+
+def _flags_ns(**kw):
+    """a stand-in for the absl flags a policy reads at construction (direct calls)"""
+    import types
+
+    d = dict(log_dir=None, log_file_name=None, log_level="info", scheduler_log_times=[], scheduler_run_load=False,
+             scheduler_log_to_file=False)  # fmt: skip
+    d.update(kw)
+    return types.SimpleNamespace(**d)
 
 
 def make_policy(kind, o):
@@ -93,17 +152,24 @@ def make_policy(kind, o):
     rt = us(0)
     la = us(o.get("lookahead", 0))
     if kind == "edf":
-        return schedulers.EDFScheduler(runtime=rt, enforce_deadlines=o.get("enforce", False))
+        return schedulers.EDFScheduler(preemptive=o.get("preemptive", False), runtime=rt, enforce_deadlines=o.get("enforce", False))
     if kind == "fifo":
         return schedulers.FIFOScheduler(runtime=rt, enforce_deadlines=o.get("enforce", False))
     if kind == "lsf":
-        return schedulers.LSFScheduler(runtime=rt)
+        return schedulers.LSFScheduler(preemptive=o.get("preemptive", False), runtime=rt)
+    if kind in ("bp", "bp_logfix"):
+        from workload import BranchPredictionPolicy
+
+        return schedulers.BranchPredictionScheduler(
+            preemptive=o.get("preemptive", False), runtime=rt, policy=BranchPredictionPolicy[o.get("policy", "RANDOM")],
+            branch_prediction_accuracy=o.get("acc", 0.5), release_taskgraphs=o.get("rtg", False),
+        )  # fmt: skip
     if kind == "ilp":
         from schedulers import ILPScheduler
 
         return ILPScheduler(
             runtime=rt, lookahead=la, enforce_deadlines=o.get("enforce", True), retract_schedules=o.get("retract", False),
-            release_taskgraphs=o.get("rtg", False), goal=o.get("goal", "max_goodput"), batching=False,
+            release_taskgraphs=o.get("rtg", False), goal=o.get("goal", "max_goodput"), batching=o.get("batching", False),
             time_limit=N.EventTime(20, N.EventTime.Unit.S),
         )  # fmt: skip
     if kind in ("ts_gurobi", "ts_cplex"):
@@ -111,7 +177,7 @@ def make_policy(kind, o):
 
         kw = dict(
             runtime=rt, lookahead=la, enforce_deadlines=o.get("enforce", False), retract_schedules=o.get("retract", False),
-            goal="max_goodput", batching=False, time_limit=N.EventTime(20, N.EventTime.Unit.S),
+            goal="max_goodput", batching=o.get("batching", False) and kind == "ts_cplex", time_limit=N.EventTime(20, N.EventTime.Unit.S),
             time_discretization=us(o.get("disc", 1)), plan_ahead=us(o.get("plan_ahead", 10)),
         )  # fmt: skip
         if kind == "ts_gurobi":
@@ -126,8 +192,25 @@ def make_policy(kind, o):
             release_taskgraphs=o.get("rtg", False),
         )  # fmt: skip
     if kind == "clockwork":
-        return schedulers.ClockworkScheduler(runtime=rt, goal=o.get("goal", "clockwork"))
+        fl = _flags_ns(scheduler_run_load=True) if o.get("run_load") else None
+        return schedulers.ClockworkScheduler(runtime=rt, goal=o.get("goal", "clockwork"), _flags=fl)
     raise ValueError(kind)
+
+
+@contextlib.contextmanager
+def logfix(kind):
+    """policy 'bp_logfix': BranchPredictionScheduler's debug line reads Task.resource_requirements, which no Task has;
+    the attribute is supplied (for the log line only) while the call runs and removed afterwards"""
+    if kind != "bp_logfix":
+        yield
+        return
+    from workload import Task
+
+    Task.resource_requirements = property(lambda self: self.available_execution_strategies.get_fastest_strategy().resources)
+    try:
+        yield
+    finally:
+        del Task.resource_requirements
 
 
 def opts_str(o):
@@ -187,7 +270,8 @@ class Recorder:
                         "av": [w.resources.get_available_quantity(r) for r in tr.inst[key]],
                         "occ": occ,
                         "inpool": sorted(o["t"] for o in occ if o["t"] in pp),
-                        "profiles": len(w.get_available_profiles()) * 100 + len(w.get_pending_profiles()),
+                        "profiles": sorted([tr.prof_index(p), 1] for p in w.get_available_profiles())
+                        + sorted([tr.prof_index(p), 0] for p in w.get_pending_profiles()),
                     }
                 )
             out.append(ws)
@@ -206,6 +290,7 @@ class Recorder:
             "plan": dyn["plan"],
             "rem": dyn["rem"],
             "remp": self.tr.tm(t.remaining_time),
+            "prof": self.tr.prof_index(t.profile),
         }
 
     def cluster_desc(self, pools, now):
@@ -220,11 +305,16 @@ class Recorder:
                     sd = tr.strat_desc(w._placed_tasks[t])
                     occ.append({"t": tr.tidx.get(t.id, 0), "dem": sd["dem"], "fin": now + max(0, tr.tm(t.remaining_time)), "bid": sd["bid"]})
                 occ.sort(key=lambda o: o["t"])
+                held = [(p, w._available_profiles[p], False) for p in w.get_available_profiles()]
+                held += [(p, w._pending_profiles[p], True) for p in w.get_pending_profiles()]
+                prof = [{"pr": tr.prof_index(p), "dem": tr.strat_desc(ls)["dem"], "pend": pend} for p, ls, pend in held]
+                prof.sort(key=lambda h: h["pr"])
                 ws.append(
                     {
                         "insts": [{"name": r.name, "id": r.id, "cap": q} for r, q in w.resources.resources],
                         "av": [w.resources.get_available_quantity(r) for r in tr.inst[key]],
                         "occ": occ,
+                        "prof": prof,
                     }
                 )
             out.append(ws)
@@ -233,7 +323,7 @@ class Recorder:
     def dec_desc(self, p):
         tr = self.tr
         kind = p.placement_type.value  # 1 evict 2 load 3 cancel 4 place
-        d = {"kind": kind, "t": 0, "placed": False, "pool": 0, "wk": 0, "sd": dict(tr.NOSD), "tm": -1}
+        d = {"kind": kind, "t": 0, "placed": False, "pool": 0, "wk": 0, "sd": dict(tr.NOSD), "tm": -1, "pr": 0}
 
         def where():
             d["pool"] = tr.pool_idx.get(p.worker_pool_id, 0)
@@ -252,6 +342,7 @@ class Recorder:
             d["placed"] = True
             where()
             d["sd"] = tr.strat_desc(p.loading_strategy)
+            d["pr"] = tr.prof_index(p.work_profile)
         return d
 
     def call(self, kind, opts, sched, sim_time, workload, pools, src, wall=40):
@@ -284,7 +375,7 @@ class Recorder:
         prev_alarm = signal.alarm(wall)
         t0 = time.time()
         try:
-            with contextlib.redirect_stdout(io.StringIO()):
+            with contextlib.redirect_stdout(io.StringIO()), logfix(kind):
                 placements = sched.schedule(sim_time, workload, pools)
             plist = list(placements)
         except (_Stop, simrun.HangDetected, KeyboardInterrupt):
@@ -308,16 +399,17 @@ class Recorder:
         if exc is not None:
             raised = f"{type(exc).__name__}: {exc}"[:300]
             if LICENCE_RE.search(raised) or LICENCE_RE.search(type(exc).__name__):
-                self.skips["licence:" + kind] += 1
+                self.skips["licence:" + kind + variant_of(kind, opts)] += 1
                 return placements, exc
             if isinstance(exc, _CallTimeout):
                 # slow (shared machine, hard instance) and hung cannot be told apart: counted, not judged
-                self.skips["timeout:" + kind] += 1
+                self.skips["timeout:" + kind + variant_of(kind, opts)] += 1
                 return placements, exc
         rec = {
             "id": 0,
             "policy": kind,
             "opts": opts_str(opts),
+            "variant": variant_of(kind, opts),
             "conv": conv_of(kind, opts),
             "now": now,
             "raised": raised,
@@ -392,8 +484,61 @@ def _with_loading(w):
     return w
 
 
+def _batchable(w, rnd):
+    """several requests of few profiles, whose strategies come in batch sizes 1..3 (ILP / CPLEX batching=True)"""
+    for p in w["profiles"]:
+        base = p["strats"][0]
+        p["strats"] = [dict(base, bs=1)] + [dict(base, rt=base["rt"] + k, bs=k + 1) for k in range(1, rnd.choice([2, 3]))]
+    return w
+
+
+def gen_side_world(rnd, kind):
+    """worlds run under the side options: preemptive EDF / LSF, BranchPrediction, batching planners, Clockwork with run_load"""
+    if kind in ("clockwork_load", "clockwork_load_gpu"):
+        w = worlds.gen_clockwork_world(rnd)
+        if kind == "clockwork_load_gpu":
+            # a loaded model also keeps a gpu unit (execution and loading strategies share a resource type)
+            for p in w["profiles"]:
+                p["loading"][0]["dem"].append(worlds.R("gpu", "any", 1))
+            for pool in w["pools"]:
+                for wk in pool:
+                    wk[0]["cap"] += 1
+        w["flags"]["timeout"] = 80
+        return w
+    if kind in ("edf_pre", "lsf_pre", "bp", "bp_logfix"):
+        w = worlds.gen_world(rnd, kinds=("edf",), max_graphs=2, closed_loop=False)
+        pre = kind.endswith("_pre") or (kind == "bp_logfix" and rnd.random() < 0.4)
+        base = kind.split("_")[0] if kind.endswith("_pre") else kind
+        w["sched"] = {"kind": base, "runtime": 0, "enforce": base == "edf" and rnd.random() < 0.4, "preemptive": pre}
+        if base.startswith("bp"):
+            w["sched"].update({"policy": rnd.choice(BP_POLICIES), "rtg": rnd.random() < 0.3, "acc": rnd.choice([0.5, 1.0])})
+        w["flags"]["variance"] = rnd.choice([0, 0, 50])
+        w["flags"]["timeout"] = rnd.choice([60, 100])
+        return w
+    base = "ilp" if kind == "ilp_batch" else "ts_cplex"
+    w = worlds.gen_world(rnd, kinds=("edf",), max_graphs=2, closed_loop=False)
+    while sum(len(g["jobs"]) for g in w["graphs"]) > 3 or len(w["profiles"]) > 2:
+        w = worlds.gen_world(rnd, kinds=("edf",), max_graphs=2, closed_loop=False)
+    _bounded(w, rnd, rnd.choice([40, 60]))
+    for g in w["graphs"]:
+        g["policy"].update({"period": rnd.choice([1, 1, 2]), "n": 2})
+    _batchable(w, rnd)
+    la = rnd.choice([0, 0, 3])
+    if base == "ilp":
+        goal = rnd.choice(["max_goodput", "max_slack"])
+        w["sched"] = {"kind": "ilp", "runtime": 0, "goal": goal, "enforce": True if goal == "max_goodput" else rnd.random() < 0.5,
+                      "lookahead": la, "retract": rnd.random() < 0.3, "rtg": False, "batching": True}  # fmt: skip
+    else:
+        w["sched"] = {"kind": "ts_cplex", "runtime": 0, "enforce": rnd.random() < 0.5, "lookahead": la, "retract": rnd.random() < 0.3,
+                      "rtg": False, "disc": 1, "plan_ahead": rnd.choice([8, 12]), "batching": True}  # fmt: skip
+        w["graphs"] = w["graphs"][:1]
+    return w
+
+
 def gen_sim_world(rnd, kind):
     """a world run under the real policy `kind` (part a)"""
+    if kind in ("edf_pre", "lsf_pre", "bp", "bp_logfix", "ilp_batch", "cplex_batch", "clockwork_load", "clockwork_load_gpu"):
+        return gen_side_world(rnd, kind)
     w = worlds.gen_world(rnd, kinds=("edf",), max_graphs=2, closed_loop=kind in ("edf", "fifo", "lsf"))
     if kind in ("edf", "fifo", "lsf"):
         w["sched"] = {"kind": kind, "runtime": 0, "enforce": rnd.random() < 0.4 and kind != "lsf"}
@@ -456,6 +601,26 @@ def directed_sim_worlds():
         {"name": "edf_strategy_order", "profiles": [two], "graphs": [{"name": "G0", "jobs": [{"name": "A", "profile": 0}, {"name": "B", "profile": 0},
          {"name": "C", "profile": 0}], "policy": {"type": "fixed", "period": 3, "n": 2, "start": 0}, "dv": [100, 200]}], "pools": het,
          "flags": dict(fl), "seed": 1, "sched": {"kind": "edf", "runtime": 0, "enforce": True}},
+        # Clockwork loads and evicts models itself: two models whose weights (2 mem each) do not fit one worker (3 mem)
+        # together; the requests of M1 arrive while M0 is loaded - M0 has to be evicted before M1 can be loaded
+        {"name": "clockwork_evict_to_load", "profiles": [
+            {"name": "M0", "strats": [{"dem": [R("gpu", "any", 1)], "rt": 3, "bs": 1}, {"dem": [R("gpu", "any", 1)], "rt": 4, "bs": 2}],
+             "loading": [{"dem": [R("mem", "any", 2)], "rt": 2, "bs": 1}]},
+            {"name": "M1", "strats": [{"dem": [R("gpu", "any", 1)], "rt": 2, "bs": 1}], "loading": [{"dem": [R("mem", "any", 2)], "rt": 3, "bs": 1}]}],
+         "graphs": [{"name": "G0", "jobs": [{"name": "R", "profile": 0}], "policy": {"type": "fixed", "period": 2, "n": 3, "start": 0}, "dv": [200, 300]},
+                    {"name": "G1", "jobs": [{"name": "R", "profile": 1}], "policy": {"type": "fixed", "period": 1, "n": 6, "start": 9}, "dv": [300, 400]}],
+         "pools": [[[I("gpu", "g1", 2), I("mem", "m1", 3)]]], "flags": {"timeout": 80, "frequency": 1}, "seed": 1,
+         "sched": {"kind": "clockwork", "runtime": 0, "run_load": True, "cw_goal": "clockwork"}},
+        {"name": "clockwork_evict_to_load_2w", "profiles": [
+            {"name": "M0", "strats": [{"dem": [R("gpu", "any", 1)], "rt": 3, "bs": 1}], "loading": [{"dem": [R("mem", "any", 2)], "rt": 2, "bs": 1}]},
+            {"name": "M1", "strats": [{"dem": [R("gpu", "any", 1)], "rt": 2, "bs": 1}, {"dem": [R("gpu", "any", 1)], "rt": 3, "bs": 2}],
+             "loading": [{"dem": [R("mem", "any", 1)], "rt": 1, "bs": 1}]},
+            {"name": "M2", "strats": [{"dem": [R("gpu", "any", 1)], "rt": 2, "bs": 1}], "loading": [{"dem": [R("mem", "any", 2)], "rt": 2, "bs": 1}]}],
+         "graphs": [{"name": "G0", "jobs": [{"name": "R", "profile": 0}], "policy": {"type": "fixed", "period": 3, "n": 2, "start": 0}, "dv": [200, 300]},
+                    {"name": "G1", "jobs": [{"name": "R", "profile": 1}], "policy": {"type": "fixed", "period": 1, "n": 4, "start": 2}, "dv": [300, 400]},
+                    {"name": "G2", "jobs": [{"name": "R", "profile": 2}], "policy": {"type": "fixed", "period": 1, "n": 5, "start": 8}, "dv": [300, 400]}],
+         "pools": [[[I("gpu", "g1", 1), I("mem", "m1", 3)], [I("gpu", "g2", 2), I("mem", "m2", 2)]]], "flags": {"timeout": 80, "frequency": 1}, "seed": 1,
+         "sched": {"kind": "clockwork", "runtime": 0, "run_load": True, "cw_goal": "least_slack"}},
     ]
 
 
@@ -528,6 +693,117 @@ def directed_prefix_worlds():
 
 
 # ---------------------------------------------------------------------------
+# staged states (part b'): a scripted stage policy drives a real simulation to a chosen class of state
+
+
+def stage_world(name, pools, early, late, stop=None, seed=1, lookahead=0, rtg=False):
+    """early: tasks the stage policy places itself: {"strats": [(gpus, rt[, bs])], "rel", "dv", "at", "pool", "wk", "strategy"}
+    (deadline = rel + rt * (1 + dv/100); started at max(at, rel) on the named worker);
+    late: tasks left to the policy under test: {"strats", "rel", "dv", "child": strats?, "share": reuse the previous profile}.
+    The run stops at the first invocation at or after `stop` (default: the first late release)."""
+    R = worlds.R
+    profiles, graphs, plans = [], [], {}
+
+    def prof(strats):
+        profiles.append({"name": f"P{len(profiles)}", "strats": [{"dem": [R("gpu", "any", st[0])], "rt": st[1], "bs": (st[2] if len(st) > 2 else 1)}
+                                                                  for st in strats]})  # fmt: skip
+        return len(profiles) - 1
+
+    for i, e in enumerate(early):
+        k = prof(e["strats"])
+        graphs.append({"name": f"E{i}", "jobs": [{"name": "T", "profile": k}], "policy": {"type": "fixed", "period": 1, "n": 1, "start": e["rel"]},
+                       "dv": [e.get("dv", 0)] * 2})  # fmt: skip
+        plans[f"T@E{i}@0"] = {"tm": e["at"], "pool": e.get("pool", 1), "wk": e.get("wk", 1), "strategy": e.get("strategy", 1)}
+    last = None
+    for i, l in enumerate(late):
+        k = last if (l.get("share") and last is not None) else prof(l["strats"])
+        last = k
+        jobs = [{"name": "T", "profile": k}]
+        if l.get("child"):
+            jobs = [{"name": "T", "profile": k, "children": ["U"]}, {"name": "U", "profile": prof(l["child"])}]
+        graphs.append({"name": f"L{i}", "jobs": jobs, "policy": {"type": "fixed", "period": 1, "n": 1, "start": l["rel"]}, "dv": [l.get("dv", 0)] * 2})
+    w = {
+        "name": name, "profiles": profiles, "graphs": graphs, "pools": pools, "seed": seed, "staged": True,
+        "sched": {"kind": "stage", "runtime": 0, "lookahead": lookahead, "retract": False, "rtg": rtg, "plans": plans,
+                  "stop_time": min(l["rel"] for l in late) if stop is None else stop},
+        "flags": {"timeout": 300, "frequency": -1},
+    }  # fmt: skip
+    return _with_loading(w)
+
+
+def directed_staged_worlds(tier):
+    """the grid of part (b'): {one 1-gpu worker | a 1-gpu and a 2-gpu worker where the late task only fits the big one}
+    x {the early task RUNNING past its deadline with much / little left, RUNNING on time with much / little left, the late
+    release exactly at / just after the early deadline, the early task still SCHEDULED for later on that worker (deadline
+    passed / not yet)} x {late deadline tight | loose}, plus mixed families (running + planned, batches, children)"""
+    I = worlds.I
+    one = [[[I("gpu", "g1", 1)]]]
+    het = [[[I("gpu", "g1", 1)], [I("gpu", "g2", 2)]]]
+    out = []
+    # (planned start of the early task (rt 10, released at 0, deadline 10), release of the late task = invocation time)
+    states = [("overrun_much", 8, 12), ("overrun_little", 8, 17), ("at_deadline", 8, 10), ("just_after_deadline", 2, 11),
+              ("ontime_much", 0, 4), ("ontime_little", 0, 9), ("planned_past_deadline", 15, 12), ("planned_will_overrun", 9, 5)]  # fmt: skip
+    if tier != "quick":
+        states += [("overrun_mid", 5, 13), ("after_deadline_far", 9, 18), ("planned_far", 30, 14), ("ontime_done_next", 0, 10)]
+    for cname, pools, wk, q_late in (("one", one, 1, 1), ("het", het, 2, 2)):
+        for sname, at, rb in states:
+            for dname, dv in (("tight", 0), ("loose", 300)):
+                out.append(stage_world(f"stage_{cname}_{sname}_{dname}", pools, [{"strats": [(1, 10)], "rel": 0, "dv": 0, "at": at, "wk": wk}],
+                                       [{"strats": [(q_late, 3)], "rel": rb, "dv": dv}]))  # fmt: skip
+    # a running overrun AND a future plan on the big worker; two late tasks (tight and loose), one with a child
+    out.append(stage_world("stage_mixed_run_plan", het, [{"strats": [(1, 10)], "rel": 0, "at": 7, "wk": 2}, {"strats": [(2, 4)], "rel": 1, "at": 19, "wk": 2}],
+                           [{"strats": [(2, 3), (1, 5)], "rel": 12, "dv": 0}, {"strats": [(1, 2)], "rel": 12, "dv": 300, "child": [(1, 2)]}]))  # fmt: skip
+    # two running tasks on one 2-gpu worker, one past its deadline, one not; the late task needs both gpus
+    out.append(stage_world("stage_two_running", [[[I("gpu", "g1", 2)]]], [{"strats": [(1, 6)], "rel": 0, "at": 5, "wk": 1}, {"strats": [(1, 9)], "rel": 3, "dv": 100, "at": 4, "wk": 1}],
+                           [{"strats": [(2, 2), (1, 6)], "rel": 8, "dv": 100}]))  # fmt: skip
+    # batches: three late requests of one profile with batch-size strategies next to a running overrun
+    out.append(stage_world("stage_batch_late", het, [{"strats": [(1, 10)], "rel": 0, "at": 6, "wk": 2}],
+                           [{"strats": [(1, 4, 1), (1, 6, 2)], "rel": 12, "dv": 300}, {"strats": [], "rel": 12, "dv": 300, "share": True},
+                            {"strats": [], "rel": 12, "dv": 200, "share": True}]))  # fmt: skip
+    # a late task released earlier is still waiting when the next one arrives after the early deadline (lookahead 4 offers
+    # the child too)
+    out.append(stage_world("stage_waiting_and_new", one, [{"strats": [(1, 10)], "rel": 0, "at": 4, "wk": 1}],
+                           [{"strats": [(1, 3)], "rel": 6, "dv": 300}, {"strats": [(1, 2)], "rel": 12, "dv": 0, "child": [(1, 3)]}], stop=12, lookahead=4))  # fmt: skip
+    return out
+
+
+def gen_staged_world(rnd, idx):
+    """biased random member of the staged class: the late releases are drawn around the deadline of an early task and the
+    late demands are drawn so that few workers fit"""
+    I = worlds.I
+    pools = []
+    for pi in range(rnd.choice([1, 1, 2])):
+        pools.append([[I("gpu", f"g{pi}_{wi}", rnd.choice([1, 1, 2, 3]))] for wi in range(rnd.choice([1, 2, 2, 3]))])
+    flat = [(pi + 1, wi + 1, w[0]["cap"]) for pi, p in enumerate(pools) for wi, w in enumerate(p)]
+    maxcap = max(c for _, _, c in flat)
+    early = []
+    for _ in range(rnd.choice([1, 1, 2, 3])):
+        pi, wi, cap = rnd.choice(flat)
+        rel = rnd.randint(0, 2)
+        early.append({"strats": [(rnd.randint(1, cap), rnd.randint(3, 12))], "rel": rel, "dv": rnd.choice([0, 0, 0, 50]),
+                      "at": rel + rnd.choice([0, 0, 2, 5, 9, 14]), "pool": pi, "wk": wi})  # fmt: skip
+    anchor = rnd.choice(early)
+    dl = anchor["rel"] + round(anchor["strats"][0][1] * (1 + anchor["dv"] / 100))
+    late = []
+    bs = rnd.random() < 0.25
+    for k in range(rnd.choice([1, 1, 2, 3])):
+        rel = max(1, dl + rnd.choice([-3, -1, 0, 0, 1, 1, 2, 5]))
+        q = rnd.choice([maxcap, maxcap, rnd.randint(1, maxcap)])
+        strats = [(q, rnd.randint(2, 5))]
+        if rnd.random() < 0.3:
+            strats.append((rnd.randint(1, maxcap), rnd.randint(2, 7)))
+        if bs:
+            strats = [(q, 3, 1), (q, 4, 2)]
+        l = {"strats": strats, "rel": rel, "dv": rnd.choice([0, 0, 100, 300]), "share": bs and k > 0}
+        if rnd.random() < 0.25 and not bs:
+            l["child"] = [(rnd.randint(1, maxcap), rnd.randint(1, 4))]
+        late.append(l)
+    stop = rnd.choice([min, max])(l["rel"] for l in late)
+    la = rnd.choice([0, 0, 0, 4])
+    return stage_world("", pools, early, late, stop=stop, seed=idx + 1, lookahead=la, rtg=la > 0 and rnd.random() < 0.5)
+
+
+# ---------------------------------------------------------------------------
 # the prefix policy (part b)
 
 
@@ -566,6 +842,7 @@ def _prefix_policy_class():
             r = self._rnd
             virt = pycopy.copy(worker_pools)
             out, seen = [], set()
+            planned = set()  # tasks given a placement by this call
             for t in tasks:
                 if t.id in seen or t.state not in (TaskState.VIRTUAL, TaskState.RELEASED, TaskState.SCHEDULED):
                     continue
@@ -575,6 +852,10 @@ def _prefix_policy_class():
                 tg = workload.get_task_graph(t.task_graph)
                 if any(p.conditional and not p.is_complete() for p in tg.get_parents(t)):
                     continue  # see hostile.py: answering a child of an undecided conditional can crash the simulator
+                if any(not (p.is_complete() or p.state in (TaskState.RUNNING, TaskState.SCHEDULED) or p.id in planned) for p in tg.get_parents(t)):
+                    # every bundled planner plans a child only together with (or after) all of its parents: a SCHEDULED task
+                    # whose parent has no plan at all is not a state any of them leaves behind
+                    continue
                 if r.random() >= self.answer_rate:
                     continue  # stays RELEASED / VIRTUAL / keeps its plan
                 cands = []
@@ -596,10 +877,45 @@ def _prefix_policy_class():
                 else:
                     pool, w, s = r.choice(cands)
                     when = sim_time + self.runtime + EventTime(r.choice([1, 2, 3, 5, 8]), EventTime.Unit.US)
+                planned.add(t.id)
                 out.append(Placement.create_task_placement(task=t, placement_time=when, worker_pool_id=pool.id, worker_id=w.id, execution_strategy=s))
             return Placements(runtime=self.runtime, true_runtime=EventTime.zero(), placements=out)
 
-    return PrefixScheduler
+    class StageScheduler(PrefixScheduler):
+        """Scripted stage (part b'): `plans` maps a task's unique name to {"tm", "pool", "wk", "strategy"}; the task is
+        answered once, when first offered, with a placement on that named worker at max(tm, now); every other task is
+        left unanswered.  The run stops at the first invocation at or after `stop_time`."""
+
+        def __init__(self, *a, plans=None, stop_time=0, **k):
+            super().__init__(*a, **k)
+            self.plans = dict(plans or {})
+            self.stop_time = stop_time
+            self.answered = set()
+
+        def schedule(self, sim_time, workload, worker_pools):
+            now = sim_time.to(EventTime.Unit.US).time
+            if now >= self.stop_time:
+                self.on_stop(sim_time, workload, worker_pools)
+                raise _Stop()
+            tasks = workload.get_schedulable_tasks(
+                sim_time, self.lookahead, self.preemptive, self.retract_schedules, worker_pools, self.policy,
+                self.branch_prediction_accuracy, self.release_taskgraphs,
+            )  # fmt: skip
+            pools = list(worker_pools.worker_pools)
+            out = []
+            for t in tasks:
+                pl = self.plans.get(t.unique_name)
+                if pl is None or t.id in self.answered or t.state not in (TaskState.VIRTUAL, TaskState.RELEASED):
+                    continue
+                self.answered.add(t.id)
+                pool = pools[pl.get("pool", 1) - 1]
+                w = pool.workers[pl.get("wk", 1) - 1]
+                strat = list(t.available_execution_strategies)[pl.get("strategy", 1) - 1]
+                when = EventTime(max(pl.get("tm", now), now), EventTime.Unit.US) + self.runtime
+                out.append(Placement.create_task_placement(task=t, placement_time=when, worker_pool_id=pool.id, worker_id=w.id, execution_strategy=strat))
+            return Placements(runtime=self.runtime, true_runtime=EventTime.zero(), placements=out)
+
+    return PrefixScheduler, StageScheduler
 
 
 def direct_configs(rnd, tier, world):
@@ -612,8 +928,24 @@ def direct_configs(rnd, tier, world):
     B = lambda: rnd.random() < 0.5  # noqa: E731
     sc = world["sched"]
     la, rtg = sc.get("lookahead", 0), bool(sc.get("rtg", False))
+    # the option families with recorded findings (BranchPrediction behind its crash, batching) are only called on the
+    # fixed corpus (directed worlds and worlds drawn without VERIF_SEED), with options drawn without VERIF_SEED: their
+    # finding keys are then the same for every seed
+    fixed = bool(world.get("fixed") or world.get("name"))
+    rs = random.Random(f"side:{world.get('name')}:{world.get('seed')}:{tier}")
+    if world.get("staged"):
+        return staged_configs(rnd, rs, fixed, tier, la, rtg)
     cfgs = [("edf", {"enforce": False}), ("edf", {"enforce": True}), ("fifo", {"enforce": False}), ("fifo", {"enforce": True}),
             ("lsf", {})]  # fmt: skip
+    # the bundled options that lie beside the planners' main line: preemption, BranchPrediction, batching, run_load
+    cfgs += [("edf", {"enforce": B(), "preemptive": True}), ("lsf", {"preemptive": True}),
+             ("bp", {"policy": rnd.choice(BP_POLICIES), "preemptive": B(), "rtg": rtg})]  # fmt: skip
+    if fixed:
+        S = lambda: rs.random() < 0.5  # noqa: E731
+        cfgs += [("bp_logfix", {"policy": rs.choice(BP_POLICIES), "preemptive": False, "rtg": rtg}),
+                 ("bp_logfix", {"policy": rs.choice(BP_POLICIES), "preemptive": True, "rtg": S()})]  # fmt: skip
+        cfgs.append(("ilp", {"goal": "max_goodput", "enforce": True, "lookahead": la, "retract": S(), "rtg": rtg, "batching": True}))
+        cfgs.append(("ts_cplex", {"enforce": S(), "lookahead": la, "retract": False, "disc": 1, "plan_ahead": rs.choice([6, 10]), "batching": True}))
     n_ilp, n_ts, n_z3 = (2, 1, 2) if tier == "quick" else (6, 3, 3)
     ilp = [{"goal": g, "enforce": e, "lookahead": la, "retract": r, "rtg": rtg}
            for g, e in (("max_goodput", True), ("max_slack", True), ("max_slack", False)) for r in (False, True)]  # fmt: skip
@@ -633,6 +965,39 @@ def direct_configs(rnd, tier, world):
             cfgs.append(("z3", {"enforce": B(), "lookahead": la, "retract": B(), "rtg": rtg}))
     cfgs.append(("clockwork", {"goal": "clockwork", "start": B()}))
     cfgs.append(("clockwork", {"goal": "least_slack", "start": B()}))
+    cfgs.append(("clockwork", {"goal": rnd.choice(["clockwork", "least_slack"]), "start": True, "run_load": True}))
+    return cfgs
+
+
+BP_POLICIES = ["WORST_CASE", "BEST_CASE", "MAXIMUM", "RANDOM", "ALL"]
+
+
+def staged_configs(rnd, rs, fixed, tier, la, rtg):
+    """staged states: every planner with enforcement on AND off (no sampling), the greedy ones, the side options"""
+    cfgs = [("edf", {"enforce": False}), ("edf", {"enforce": True}), ("fifo", {"enforce": False}), ("fifo", {"enforce": True}),
+            ("lsf", {}), ("edf", {"enforce": False, "preemptive": True}), ("edf", {"enforce": True, "preemptive": True}),
+            ("lsf", {"preemptive": True}), ("bp", {"policy": rnd.choice(BP_POLICIES), "preemptive": rnd.random() < 0.5, "rtg": rtg})]  # fmt: skip
+    if fixed:
+        cfgs += [("bp_logfix", {"policy": rs.choice(BP_POLICIES), "preemptive": False, "rtg": rtg}),
+                 ("bp_logfix", {"policy": rs.choice(BP_POLICIES), "preemptive": True, "rtg": rtg})]  # fmt: skip
+    for g, e in (("max_goodput", True), ("max_slack", True), ("max_slack", False)):
+        cfgs.append(("ilp", {"goal": g, "enforce": e, "lookahead": la, "retract": False, "rtg": rtg}))
+    cfgs.append(("ilp", {"goal": rnd.choice(["max_goodput", "max_slack"]), "enforce": True, "lookahead": la, "retract": True, "rtg": rtg}))
+    if fixed:
+        cfgs.append(("ilp", {"goal": "max_goodput", "enforce": True, "lookahead": la, "retract": False, "rtg": rtg, "batching": True}))
+        cfgs.append(("ts_cplex", {"enforce": rs.random() < 0.5, "lookahead": la, "retract": False, "disc": 1, "plan_ahead": 10, "batching": True}))
+        if tier != "quick":
+            cfgs.append(("ilp", {"goal": "max_slack", "enforce": False, "lookahead": la, "retract": False, "rtg": rtg, "batching": True}))
+    for e in (False, True):
+        cfgs.append(("ts_gurobi", {"enforce": e, "lookahead": la, "retract": False, "rtg": rtg, "disc": 1, "plan_ahead": 12}))
+        cfgs.append(("ts_cplex", {"enforce": e, "lookahead": la, "retract": False, "disc": 1, "plan_ahead": 10}))
+        cfgs.append(("z3", {"enforce": e, "lookahead": la, "retract": False, "rtg": rtg}))
+    cfgs.append(("ts_gurobi", {"enforce": rnd.random() < 0.5, "lookahead": la, "retract": True, "rtg": rtg, "disc": rnd.choice([1, 2]), "plan_ahead": 12}))
+    if tier != "quick":
+        cfgs.append(("z3", {"enforce": rnd.random() < 0.5, "lookahead": la, "retract": True, "rtg": rtg}))
+        cfgs.append(("ts_cplex", {"enforce": rnd.random() < 0.5, "lookahead": la, "retract": not rtg, "disc": 2, "plan_ahead": 10}))
+    cfgs.append(("clockwork", {"goal": "clockwork", "start": True}))
+    cfgs.append(("clockwork", {"goal": "least_slack", "start": True, "run_load": True}))
     return cfgs
 
 
@@ -655,6 +1020,15 @@ def _mk_sim(world, sched_factory=None):
 
     N = ns()
     simmod.setup_csv_logging = lambda *a, **k: simrun._CsvCapture(lambda row: None)
+    if sched_factory is None and world["sched"]["kind"] in ("bp", "bp_logfix"):
+        def sched_factory(w, flags, sc):  # noqa: E306
+            from workload import BranchPredictionPolicy
+            import schedulers
+
+            return schedulers.BranchPredictionScheduler(
+                preemptive=sc["preemptive"], runtime=us(sc["runtime"]), policy=BranchPredictionPolicy[sc.get("policy", "RANDOM")],
+                branch_prediction_accuracy=sc.get("acc", 0.5), release_taskgraphs=sc["rtg"], _flags=flags,
+            )  # fmt: skip
     pools, sched, loader, flags, fl, sc, profs = build_world(world, sched_factory)
     sim = simmod.Simulator(
         worker_pools=pools, scheduler=sched, workload_loader=loader, loop_timeout=N.EventTime(fl["timeout"], N.EventTime.Unit.US),
@@ -685,6 +1059,13 @@ def run_sim_world(world, widx, wall=60, max_calls=40):
         opts = {k: sc[k] for k in ("enforce", "lookahead", "retract", "rtg", "goal", "disc", "plan_ahead", "runtime") if k in sc}
         if kind in ("edf", "fifo", "lsf", "clockwork"):
             opts = {k: v for k, v in opts.items() if k in ("enforce", "runtime")}
+        if kind in ("bp", "bp_logfix"):
+            opts = {"policy": sc.get("policy", "RANDOM"), "rtg": sc["rtg"], "acc": sc.get("acc", 0.5)}
+        for k in ("preemptive", "batching", "run_load"):
+            if sc.get(k):
+                opts[k] = True
+        if kind == "clockwork":
+            opts["enforce"] = True
         real = sched.schedule
         holder = {"n": 0}
 
@@ -728,7 +1109,7 @@ def run_prefix_world(world, widx, tier, wall=150):
     import_repo()
     out = {"widx": widx, "records": [], "end": "", "skips": {}, "state": None, "corrupted_by": ""}
     rnd = random.Random(f"direct:{seed()}:{widx}:{world.get('seed', 0)}")
-    Prefix = _prefix_policy_class()
+    Prefix, Stage = _prefix_policy_class()
     box = {}
 
     def on_stop(sim_time, workload, pools):
@@ -739,10 +1120,13 @@ def run_prefix_world(world, widx, tier, wall=150):
                         "occupied_workers": sum(1 for p in pools.worker_pools for w in p.workers if w.get_placed_tasks())}  # fmt: skip
         for kind, opts in direct_configs(rnd, tier, world):
             before = (rec.proj_tasks(), rec.proj_cluster(pools))
+            # the policies draw from the global generator (ids of solver variables / batches, RANDOM branch prediction):
+            # every call starts from a state that does not depend on the calls made before it
+            random.seed(f"call:{world.get('seed', 0)}:{kind}:{opts_str(opts)}")
             pol = make_policy(kind, opts)
             if kind == "clockwork" and opts.get("start"):
                 pol.start(sim_time, box["profs"], pools)
-            src = {"part": "direct", "widx": widx}
+            src = {"part": "direct", "widx": widx, "tier": tier}
             n0 = len(rec.records)
             rec.call(kind, opts, pol, sim_time, workload, pools, src)
             if opts.get("retract") and len(rec.records) > n0:
@@ -760,6 +1144,11 @@ def run_prefix_world(world, widx, tier, wall=150):
 
     def factory(w, flags, sc):
         N = ns()
+        if sc["kind"] == "stage":
+            return Stage(
+                seed=w.get("seed", 0), runtime=us(sc["runtime"]), lookahead=us(sc["lookahead"]), retract_schedules=sc["retract"],
+                release_taskgraphs=sc["rtg"], cancel_rate=0.0, _flags=flags, on_stop=on_stop, plans=sc["plans"], stop_time=sc["stop_time"],
+            )  # fmt: skip
         return Prefix(
             seed=w.get("seed", 0), runtime=us(sc["runtime"]), lookahead=us(sc["lookahead"]), retract_schedules=sc["retract"],
             release_taskgraphs=sc["rtg"], cancel_rate=0.0, _flags=flags, stop_at=w.get("stop_at", 3), on_stop=on_stop,
@@ -791,9 +1180,10 @@ def run_prefix_world(world, widx, tier, wall=150):
 
 
 def _world_job(kind, world, widx, tier, max_calls):
-    if kind == "sim":
-        return run_sim_world(world, widx, 90, max_calls)
-    return run_prefix_world(world, widx, tier)
+    t0 = time.time()
+    out = run_sim_world(world, widx, 90, max_calls) if kind == "sim" else run_prefix_world(world, widx, tier)
+    out["wall_s"] = round(time.time() - t0, 1)
+    return out
 
 
 def _judge_job(kind, recs, name):
@@ -827,7 +1217,7 @@ def _tuples(stdout):
 
 
 def _spec_fields(rec):
-    return {k: v for k, v in rec.items() if k not in ("src", "opts")}
+    return {k: v for k, v in rec.items() if k not in ("src", "opts", "variant")}
 
 
 def judge_batch(recs, name):
@@ -938,14 +1328,16 @@ def _norm_exc(msg):
 
 def finding_key(rec, fail):
     cl = fail["clause"].split(".", 1)[1]
+    pol = rec["policy"] + rec.get("variant", "")
     if cl == "returns":
-        return f"{rec['policy']}:raised:{_norm_exc(rec['raised'])}"
+        return f"{pol}:raised:{_norm_exc(rec['raised'])}"
     circ = "+".join(fail["circ"])
-    return f"{rec['policy']}:{cl}" + (f":{circ}" if circ else "")
+    return f"{pol}:{cl}" + (f":{circ}" if circ else "")
 
 
 def slim(rec, keep_state=True):
     r = {k: rec[k] for k in ("id", "policy", "opts", "conv", "now", "raised", "offered", "decs")}
+    r["variant"] = rec.get("variant", "")
     r["tasks"] = [{k: t[k] for k in ("st", "rel", "dl", "strats", "plan", "rem")} for t in rec["tasks"]]
     r["cluster"] = rec["cluster"]
     r["src"] = rec.get("src")
@@ -954,20 +1346,91 @@ def slim(rec, keep_state=True):
     return r
 
 
+STATE_CLASSES = [
+    "running_past_deadline", "running_will_overrun", "running_little_left", "running_much_left", "scheduled_past_deadline",
+    "scheduled_future", "scheduled_deferred", "offered_after_running_deadline", "offered_at_running_deadline", "disjoint_windows",
+    "offered_only_fits_busy_worker", "offered_only_fits_planned_worker", "offered_hopeless_deadline", "offered_tight_deadline",
+    "offered_loose_deadline", "placed_beside_overrun",
+]  # fmt: skip
+
+
+def state_classes(records, exercised):
+    """per policy (+variant, enforcement on / off): how many judged direct calls met each class of state"""
+    out = collections.defaultdict(collections.Counter)
+    for r in records:
+        if r["src"]["part"] != "direct":
+            continue
+        who = f"{r['policy']}{r.get('variant', '')}:enforce={'on' if r['conv'].get('enforce') else 'off'}"
+        out[who]["calls"] += 1
+        for x in exercised.get(r["id"], []):
+            if x in STATE_CLASSES:
+                out[who][x] += 1
+    return {k: dict(sorted(v.items())) for k, v in sorted(out.items())}
+
+
 def make_plan(tier):
     rnd = random.Random(f"c10:{seed()}:{tier}")
     if tier == "quick":
         n_sim = {"edf": 3, "fifo": 3, "lsf": 4, "ilp": 5, "ts_gurobi": 4, "ts_cplex": 3, "clockwork": 3}
-        n_prefix = 8
+        n_side = {"edf_pre": 2, "lsf_pre": 2, "bp": 1, "clockwork_load": 3}
+        n_prefix, n_staged = 8, 8
     else:
         n_sim = {"edf": 80, "fifo": 60, "lsf": 80, "ilp": 160, "ts_gurobi": 100, "ts_cplex": 70, "clockwork": 70}
-        n_prefix = 420
+        n_side = {"edf_pre": 40, "lsf_pre": 40, "bp": 5, "clockwork_load": 60}
+        n_prefix, n_staged = 420, 260
     sims = directed_sim_worlds()
     for kind, n in n_sim.items():
         for _ in range(n):
             sims.append(gen_sim_world(rnd, kind))
     prefixes = directed_prefix_worlds() + [gen_prefix_world(rnd) for _ in range(n_prefix)]
+    # the additions draw from their own generators (the worlds above stay what they were for a given seed)
+    rnd2 = random.Random(f"c10+:{seed()}:{tier}")
+    for kind, n in n_side.items():
+        for _ in range(n):
+            sims.append(gen_sim_world(rnd2, kind))
+    # fixed corpus (no VERIF_SEED): the option families with recorded findings - see direct_configs
+    corpus = fixed_corpus(tier)
+    sims += corpus["sims"]
+    prefixes += corpus["prefixes"]
+    prefixes += directed_staged_worlds(tier)
+    prefixes += corpus["staged"]
+    prefixes += [gen_staged_world(rnd2, i) for i in range(n_staged)]
     return sims, prefixes
+
+
+CORPUS = os.path.join(os.path.dirname(os.path.abspath(__file__)), "c10_corpus.json")
+
+
+def gen_fixed_corpus(tier):
+    """worlds for the option families with recorded findings, drawn without VERIF_SEED"""
+    if tier == "quick":
+        n_fixed = {"bp_logfix": 3, "ilp_batch": 3, "cplex_batch": 2}
+        cw_gpu = [9, 35]
+        n_staged_fixed, n_prefix_fixed = 4, 3
+    else:
+        n_fixed = {"bp_logfix": 30, "ilp_batch": 40, "cplex_batch": 30}
+        cw_gpu = list(range(40))
+        n_staged_fixed, n_prefix_fixed = 40, 40
+    rndf = random.Random(f"c10-fixed:{tier}")
+    sims = []
+    for kind, n in n_fixed.items():
+        for _ in range(n):
+            sims.append(dict(gen_sim_world(rndf, kind), fixed=True))
+    for k in cw_gpu:
+        sims.append(dict(gen_side_world(random.Random(f"cw:{k}"), "clockwork_load_gpu"), fixed=True))
+    prefixes = [dict(gen_prefix_world(rndf), fixed=True) for _ in range(n_prefix_fixed)]
+    staged = [dict(gen_staged_world(rndf, 1000 + i), fixed=True) for i in range(n_staged_fixed)]
+    return {"sims": sims, "prefixes": prefixes, "staged": staged}
+
+
+def fixed_corpus(tier):
+    """The fixed corpus is stored (harness/c10_corpus.json, written by `python -m harness.c10 corpus`) so that it does not
+    move when the world generators of harness/worlds.py change; without the file it is generated."""
+    try:
+        with open(CORPUS) as f:
+            return json.load(f)[tier]
+    except (OSError, KeyError, ValueError):
+        return json.loads(json.dumps(gen_fixed_corpus(tier)))
 
 
 def run(tier: str) -> CheckResult:
@@ -979,6 +1442,7 @@ def run(tier: str) -> CheckResult:
     max_calls = 6 if tier == "quick" else 40
     # slow solver worlds first, one pool for both parts
     jobs_w = [("prefix", w, i, tier, max_calls) for i, w in enumerate(prefixes)]
+    jobs_w.sort(key=lambda j: 0 if j[1].get("staged") else 1)  # the staged states make the most (solver) calls
     order = {"ts_cplex": 0, "ilp": 1, "ts_gurobi": 2}
     jobs_w += sorted([("sim", w, i, tier, max_calls) for i, w in enumerate(sims)], key=lambda j: order.get(j[1]["sched"]["kind"], 9))
     outs = parallel(_world_job, jobs_w, procs=14)
@@ -989,7 +1453,8 @@ def run(tier: str) -> CheckResult:
     records, skips = [], collections.Counter()
     sim_ends, prefix_ends = collections.Counter(), collections.Counter()
     for o in sim_out:
-        kind = sims[o["widx"]]["sched"]["kind"]
+        sc_ = sims[o["widx"]]["sched"]
+        kind = sc_["kind"] + variant_of(sc_["kind"], sc_)
         sim_ends[f"{kind}:{o['end'].split(':')[0]}"] += 1
         skips.update(o["skips"])
         records += o["records"]
@@ -1012,7 +1477,7 @@ def run(tier: str) -> CheckResult:
     good = canary_base()
     cans = canaries(good)
 
-    nb = 4 if tier == "quick" else 12
+    nb = min(15, max(4, len(records) // 110)) if tier == "quick" else 15
     batches = [b for b in (records[k::nb] for k in range(nb)) if b]
     jobs = [("batch", b, f"b{k}") for k, b in enumerate(batches)]
     if cans:
@@ -1075,19 +1540,20 @@ def run(tier: str) -> CheckResult:
 
     # ---- evidence
     per_policy = collections.Counter(r["policy"] for r in records)
-    per_part = collections.Counter(f"{r['src']['part']}:{r['policy']}" for r in records)
+    per_part = collections.Counter(f"{r['src']['part']}:{r['policy']}{r.get('variant', '')}" for r in records)
     ex_counts = collections.Counter()
     ex_by_policy = collections.defaultdict(collections.Counter)
     for rid, ex in exercised.items():
         if rid in by_id:
             for x in ex:
                 ex_counts[x] += 1
-                ex_by_policy[by_id[rid]["policy"]][x] += 1
+                ex_by_policy[by_id[rid]["policy"] + by_id[rid].get("variant", "")][x] += 1
     clause_ex = {
         "C10.returns": len(records),
         "C10.one_per_task": ex_counts["decided"],
         "C10.only_offered": ex_counts["decided"],
-        "C10.answers_all": sum(1 for r in records if r["policy"] in ("edf", "fifo", "lsf", "ilp", "ts_gurobi", "ts_cplex") and r["offered"] and not r["raised"]),
+        "C10.answers_all": sum(1 for r in records if r["policy"] in ("edf", "fifo", "lsf", "ilp", "ts_gurobi", "ts_cplex", "bp", "bp_logfix")
+                               and r["offered"] and not r["raised"]),
         "C10.names_exist": ex_counts["placed"] + ex_counts["profile_decision"],
         "C10.strategy_of_task": ex_counts["placed"] - ex_counts["no_strategy"],
         "C10.time_not_past": ex_counts["placed"],
@@ -1097,6 +1563,10 @@ def run(tier: str) -> CheckResult:
         "C10.capacity(with kept plans)": sum(1 for rid, ex in exercised.items() if "placed" in ex and "kept_plan" in ex),
         "C10.capacity(exists assignment)": ex_counts["pool_chosen_worker"],
         "C10.capacity(worker filled exactly)": ex_counts["worker_filled"],
+        "C10.capacity(beside a running task past its deadline)": ex_counts["placed_beside_overrun"],
+        "C10.capacity(with held profiles / loads)": sum(1 for rid, ex in exercised.items() if "held_profile_resources" in ex or "load" in ex),
+        "C10.capacity(batch joined)": ex_counts["batch_joined"],
+        "C10.only_offered(preemptive: running task answered)": ex_counts["running_redecided"],
         "C10.side_effect_free": len(records),
     }
     res.extra.update(
@@ -1108,6 +1578,9 @@ def run(tier: str) -> CheckResult:
             "clause_exercised": clause_ex,
             "exercised_features": dict(sorted(ex_counts.items())),
             "exercised_features_by_policy": {p: dict(sorted(c.items())) for p, c in sorted(ex_by_policy.items())},
+            # the classes of reachable states (Decision!Exercised) met by the direct calls, per policy+variant
+            "state_classes": state_classes(records, exercised),
+            "staged_worlds": sum(1 for w in prefixes if w.get("staged")),
             "failing_records_by_key": {k: len(v) for k, v in sorted(by_key.items())},
             "side_clause_notes": dict(collections.Counter(f"{by_id[s['id']]['policy']}:{s['clause']}" for s in sides if s["id"] in by_id)),
             "licence_and_timeout_skips": dict(skips),
@@ -1119,7 +1592,8 @@ def run(tier: str) -> CheckResult:
             "states_corrupted_by_a_policy": corrupted[:10],
             "canaries": canary_report,
             "record_batches": [{"batch": n, "records": j["n"], "tlc_wall_s": j["wall_s"]} for (_, b, n), j in zip(jobs, judged)],
-            "wall": {"worlds_s": round(t_worlds, 1), "tlc_s": round(t_tlc, 1)},
+            "wall": {"worlds_s": round(t_worlds, 1), "tlc_s": round(t_tlc, 1),
+                     "slowest_worlds_s": sorted((o.get("wall_s", 0) for o in outs), reverse=True)[:8]},
             "policy_call_ms": {p: int(sum(r["src"]["wall_ms"] for r in records if r["policy"] == p) / max(1, per_policy[p])) for p in per_policy},
         }
     )
@@ -1140,7 +1614,7 @@ def replay(d):
     os.environ[GUARD] = "1"
     det = d["detail"]
     src, world = det["source"], det["world"]
-    out = run_sim_world(world, src["widx"]) if src["part"] == "sim" else run_prefix_world(world, src["widx"], "quick")
+    out = run_sim_world(world, src["widx"]) if src["part"] == "sim" else run_prefix_world(world, src["widx"], src.get("tier", "quick"))
     recs = out["records"]
     for i, r in enumerate(recs, start=1):
         r["id"] = i
@@ -1151,3 +1625,12 @@ def replay(d):
     keys = sorted({finding_key(recs[f["id"] - 1], f) for f in j["fails"]})
     print(f"replay: {len(recs)} records, failing keys: {keys}")
     return 1 if d["key"] in keys else 0
+
+
+if __name__ == "__main__":
+    import sys
+
+    if sys.argv[1:] == ["corpus"]:
+        with open(CORPUS, "w") as f:
+            json.dump({t: gen_fixed_corpus(t) for t in ("quick", "thorough")}, f, indent=0, sort_keys=True)
+        print(f"wrote {CORPUS}")
